@@ -12,10 +12,17 @@
 (* sampler objects constructed at different epochs, across slices and full *)
 (* orders.                                                                 *)
 (*                                                                         *)
+(* One sampler object may have several iterators in flight: every iterator *)
+(* event names the slot `h` the harness holds the iterator in (a new       *)
+(* iterator takes the lowest free slot, as in the specification), and the  *)
+(* events of the live iterators of one object are interleaved in the order *)
+(* the harness called next() on them.  An iterator's yields must follow    *)
+(* the order of the (seed, epoch) IT was created for.                      *)
+(*                                                                         *)
 (* Trace file (env TRACE_FILE): [{tid, N, W, mode, kind, events: [{op,     *)
-(* rank, a, b, raised}]}], op in construct(a = seed id, b = init_epoch,    *)
+(* rank, h, a, b, raised}]}], op in construct(a = seed id, b = init_epoch, *)
 (* raised) | iter(a = epoch the object reported) | get(a = epoch) |        *)
-(* full(a = epoch) | yield(a = index) | end(a = len(sampler)).             *)
+(* full(a = epoch) | yield(a = index) | abandon | end(a = len(sampler)).   *)
 (***************************************************************************)
 EXTENDS SamplerMC, IOUtils, TLCExt
 
@@ -35,6 +42,7 @@ AllInv ==
   /\ CoordinatesAgree
   /\ LenIsYielded
   /\ PathIndependent
+  /\ LivePrefixes
   /\ WellFormedLists
   /\ Disjoint
   /\ Cover
@@ -47,6 +55,7 @@ FailedInvs ==
   \cup (IF CoordinatesAgree THEN {} ELSE {"CoordinatesAgree"})
   \cup (IF LenIsYielded THEN {} ELSE {"LenIsYielded"})
   \cup (IF PathIndependent THEN {} ELSE {"PathIndependent"})
+  \cup (IF LivePrefixes THEN {} ELSE {"LivePrefixes"})
   \cup (IF WellFormedLists THEN {} ELSE {"WellFormedLists"})
   \cup (IF Disjoint THEN {} ELSE {"Disjoint"})
   \cup (IF Cover THEN {} ELSE {"Cover"})
@@ -73,14 +82,14 @@ TNext ==
   /\ LET e == Events[pos + 1]
      IN CASE e.op = "construct" -> /\ Construct(e.rank, e.a, e.b)
                                    /\ (e.raised <=> smp'[e.rank].alive = FALSE)
-          [] e.op = "iter"      -> /\ BeginIter(e.rank)
+          [] e.op = "iter"      -> /\ BeginIterAt(e.rank, e.h)
                                    /\ smp[e.rank].epoch = e.a
-          [] e.op = "get"       -> BeginGet(e.rank, e.a)
-          [] e.op = "full"      -> BeginFull(e.rank, e.a)
-          [] e.op = "yield"     -> Yield(e.rank, e.a)
-          [] e.op = "abandon"   -> Abandon(e.rank)
-          [] e.op = "end"       -> /\ End(e.rank)
-                                   /\ (it[e.rank].full \/ e.a = LenCode(e.rank))
+          [] e.op = "get"       -> BeginGetAt(e.rank, e.h, e.a)
+          [] e.op = "full"      -> BeginFullAt(e.rank, e.h, e.a)
+          [] e.op = "yield"     -> YieldAt(e.rank, e.h, e.a)
+          [] e.op = "abandon"   -> AbandonAt(e.rank, e.h)
+          [] e.op = "end"       -> /\ EndAt(e.rank, e.h)
+                                   /\ (it[e.rank][e.h].full \/ e.a = LenCode(e.rank))
   /\ (Diag \/ AllInv')
 
 \* acceptance: count fully consumed traces, name them
